@@ -128,28 +128,42 @@ func (m *Metrics) AddOrGetGauge(name string, help string, labelNames []string, l
 	return g
 }
 
-func noLeftmost(v []string) {
-	if len(v) != 0 {
-		panic("fakes.Metrics: leftmost label values are not supported")
+func curryLabels(names, leftmost []string) prometheus.Labels {
+	if len(leftmost) > len(names) {
+		panic("inconsistent label cardinality")
 	}
+	l := prometheus.Labels{}
+	for i, v := range leftmost {
+		l[names[i]] = v
+	}
+	return l
 }
 
 func (m *Metrics) AddOrGetCounterVec(name string, help string, labelNames []string, leftmost []string) *promext.RWCounterVec {
-	noLeftmost(leftmost)
-	m.key(name, nil)
-	return promext.NewRWCounterVec(prometheus.CounterOpts{Name: "c_" + name}, labelNames)
+	m.key(name, leftmost)
+	v := promext.NewRWCounterVec(prometheus.CounterOpts{Name: "c_" + name}, labelNames)
+	if len(leftmost) > 0 {
+		return v.MustCurryWith(curryLabels(labelNames, leftmost))
+	}
+	return v
 }
 
 func (m *Metrics) AddOrGetLazyCounterVec(name string, help string, labelNames []string, leftmost []string) *promext.LazyRWCounterVec {
-	noLeftmost(leftmost)
-	m.key(name, nil)
-	return promext.NewLazyRWCounterVec(prometheus.CounterOpts{Name: "l_" + name}, labelNames)
+	m.key(name, leftmost)
+	v := promext.NewLazyRWCounterVec(prometheus.CounterOpts{Name: "l_" + name}, labelNames)
+	if len(leftmost) > 0 {
+		return v.MustCurryWith(curryLabels(labelNames, leftmost))
+	}
+	return v
 }
 
 func (m *Metrics) AddOrGetGaugeVec(name string, help string, labelNames []string, leftmost []string) *promext.RWGaugeVec {
-	noLeftmost(leftmost)
-	m.key(name, nil)
-	return promext.NewRWGaugeVec(prometheus.GaugeOpts{Name: "g_" + name}, labelNames)
+	m.key(name, leftmost)
+	v := promext.NewRWGaugeVec(prometheus.GaugeOpts{Name: "g_" + name}, labelNames)
+	if len(leftmost) > 0 {
+		return v.MustCurryWith(curryLabels(labelNames, leftmost))
+	}
+	return v
 }
 
 // CounterValue returns the value of the counter whose full name (prefix+name)
